@@ -49,6 +49,8 @@ class Sphinx:
                 return {"text": [f"see: d{i}", f"a: b: d{i}", f"http://d{i}"][v % 3]}
             return {"text": [f"alpha d{i} beta", f"Ünï d{i} — x", f"d{i}"][v % 3]}
         if k == "cont":
+            if ln["sh"] == "role":
+                return {"text": [f"    :class:`Beta{i}` that is d{i}", f"  :func:`pkg.f{i}` returns d{i}", f"        :py:obj:`x{i}`"][v % 3]}
             if ln["sh"] == "colon":
                 return {"text": [f"  :param y: fake d{i}", f"        deep d{i} :", f"    see: d{i}"][v % 3]}
             return {"text": [f"    more d{i}", f"  d{i}", f"        deep d{i}"][v % 3]}
@@ -96,6 +98,10 @@ class Sphinx:
         if fk is None:
             if line.startswith(":"):
                 return {"k": "other", **none}
+            import re  # noqa: PLC0415
+
+            if line.startswith(" ") and re.match(r"^ +:[\w:]+:`", line):
+                return {"k": "cont", "fk": "-", "sh": "role", "nm": "-"}
             return {"k": "cont" if line.startswith(" ") else "text", "fk": "-", "sh": "colon" if ":" in line else "-", "nm": "-"}
         try:
             _, directive, _value = line.split(":", 2)
@@ -113,7 +119,7 @@ class Sphinx:
 
     def long_alphabet(self) -> list:
         none = {"fk": "-", "sh": "-", "nm": "-"}
-        out = [{"k": k, **none} for k in ("blank", "text", "cont", "other")] + [{"k": k, "fk": "-", "sh": "colon", "nm": "-"} for k in ("text", "cont")]
+        out = [{"k": k, **none} for k in ("blank", "text", "cont", "other")] + [{"k": k, "fk": "-", "sh": "colon", "nm": "-"} for k in ("text", "cont")] + [{"k": "cont", "fk": "-", "sh": "role", "nm": "-"}]
         for fk in self.fields:
             out.append({"k": "field", "fk": fk, "sh": "bare", "nm": "-"})
             out.append({"k": "field", "fk": fk, "sh": "empty", "nm": "-"})
